@@ -507,4 +507,19 @@ theorem requeue_many {C L : Nat} (p k o f sl : Nat) (b : Bool) :
     rw [e]
     exact (Reach.init.step _ _ s1).trans (ih (o + 1))
 
+/-! #### executable macro-steps -/
+
+theorem orStay_reach {C L : Nat} (f : Srv → Option Srv) (hf : ∀ s t, f s = some t → FStep C L s t) (s : Srv) :
+    Reach (FStep C L) s (orStay f s) := by
+  unfold orStay
+  cases h : f s with
+  | none => exact Reach.init
+  | some t => exact Reach.init.step _ _ (hf s t h)
+
+theorem iter_reach {C L : Nat} (g : Srv → Srv) (hg : ∀ s, Reach (FStep C L) s (g s)) (n : Nat) (s : Srv) :
+    Reach (FStep C L) s (iter n g s) := by
+  induction n generalizing s with
+  | zero => exact Reach.init
+  | succ k ih => exact (hg s).trans (ih (g s))
+
 end Poly.Model.Pool
